@@ -441,6 +441,11 @@ func seqPool(ctNames []string) []poolReq {
 	add(pr("CS", "POST", "stream", "none", "frame-garbage"))
 	add(pr("SS", "POST", "stream", "bad-bin", "frame1"))
 	add(pr("unknown-method", "POST", "unary", "none", "pb"))
+	// one request of each generated header-set family (outcome.go): a handler failing
+	// with an error value whose own status says OK and is empty, and an
+	// undecodable -bin value followed by a valid one under the same key
+	add(pr("SS", "POST", "stream", "outcome:end/own/0//0/0", "frame1"))
+	add(pr("U", "POST", "unary", "bin:A=iv", "pb"))
 	return out
 }
 
